@@ -2104,6 +2104,19 @@ impl Transaction {
                         );
                     }
 
+                    // The replaced column values are not the ones existing indices were built
+                    // from: those indices no longer cover this fragment.
+                    let replaced_fields = new_file
+                        .fields
+                        .iter()
+                        .filter_map(|f| u32::try_from(*f).ok())
+                        .collect::<Vec<_>>();
+                    Self::prune_updated_fields_from_indices(
+                        &mut final_indices,
+                        std::slice::from_ref(frag),
+                        &replaced_fields,
+                    );
+
                     // Nothing changed in the current fragment, which is not expected -- error out
                     if &new_frag == frag {
                         return Err(Error::invalid_input(
